@@ -85,6 +85,9 @@ pub fn sig_error(kind: &str, msg: &str) -> SignatureError {
         "MalformedQueryString" => SignatureError::MalformedQueryString(m),
         "MissingAuthenticationToken" => SignatureError::MissingAuthenticationToken(m),
         "IO" => SignatureError::IO(std::io::Error::new(std::io::ErrorKind::Other, m)),
+        // a provider's own "internal error" that wraps another SignatureError: it is the provider's verdict and passes
+        // through as it is (500), it is not to be unwrapped into the inner error
+        "InternalServiceError" => SignatureError::InternalServiceError(Box::new(SignatureError::InvalidClientTokenId(m))),
         _ => SignatureError::InternalServiceError(Box::new(ForeignError)),
     }
 }
